@@ -40,7 +40,7 @@ class Oracle(BaseOracle):
             self.stat("valuations")
             new = inputs.new_safety(rp, rq)
             if rq.abort and not new:
-                new = [("abort", rq.abort)]
+                new = [("unbound-variable" if rq.abort.startswith("unbound-variable") else "abort", rq.abort)]
             if new:
                 self.violation(dict(base, oracle="safety", kind=new[0][0], cause=findings.cause_of(ev, p, q, new[0][0])),
                                dict(art, monitors=[list(x) for x in new[:4]], input=oracles.jsonable_val(val)))
